@@ -35,7 +35,7 @@ func c02Specs(tier string, seed int) []c02Spec {
 		gws  []int
 	}
 	soils := []sg{{"loam12", []int{99, 4, 12}}, {"sand20", []int{99, 6}}, {"silt5st", []int{99, 2, 5}}, {"two", []int{99, 2}}, {"three", []int{99, 3}},
-		{"stony9", []int{99, 5}}, {"peat12", []int{99, 6}}, {"silt20", []int{99, 8}}, {"clay20", []int{99, 12}}, {"expl12", []int{99, 7}}}
+		{"stony9", []int{99, 5}}, {"peat12", []int{99, 6}}, {"peat5", []int{99, 3}}, {"peat9", []int{99}}, {"peat2", []int{99}}, {"silt20", []int{99, 8}}, {"clay20", []int{99, 12}}, {"expl12", []int{99, 7}}}
 	d := 2
 	if tier == "thorough" {
 		d = 3
